@@ -6,6 +6,6 @@ for pf in "$@"; do
   rsync -a --exclude .git /repo/ "$d"/
   if ! (cd "$d" && patch -p1 -s -f < "$pf" >/dev/null 2>&1); then echo "== $pf: PATCH FAILED"; rm -rf "$d"; continue; fi
   echo "== $pf"
-  /verif/bin/cachelint matrix "$d" | grep -v ' ok$' | cut -c1-400
+  ${CACHELINT_BIN:-/verif/bin/cachelint} matrix "$d" | grep -v ' ok$' | cut -c1-400
   rm -rf "$d"
 done
